@@ -129,13 +129,20 @@ class ConnSpec:
         return z3.And(*cs) if cs else z3.BoolVal(True)
 
     def brute_force(self, cap=4):
-        """all matrices with entries <= min(limit, cap) that satisfy the spec (used by self-checks of the spec only)"""
+        """all matrices with entries <= min(limit, cap) that satisfy the spec (used by self-checks of the spec and to know
+        whether a pattern admits a matrix); rows are filtered by their own degree constraint before they are combined"""
         import itertools
         ns, nt = len(self.src), len(self.tgt)
-        rngs = [range(min(self.limit[i][j], cap)+1) for i in range(ns) for j in range(nt)]
+        if ns == 0 or nt == 0:
+            m = [[] for _ in range(ns)]
+            return [m] if self.holds(m) else []
+        rows = []
+        for i in range(ns):
+            rngs = [range(min(self.limit[i][j], cap)+1) for j in range(nt)]
+            rows.append([list(r) for r in itertools.product(*rngs) if self._deg_ok(self.src_deg[i], sum(r))])
         out = []
-        for flat in itertools.product(*rngs):
-            m = [list(flat[i*nt:(i+1)*nt]) for i in range(ns)]
+        for combo in itertools.product(*rows):
+            m = [list(r) for r in combo]
             if self.holds(m):
                 out.append(m)
         return out
